@@ -82,6 +82,19 @@ CHECKS = {
         note="Bounded: <=4 leaves, depth <=3, w in {1,2}; exact semantics for R/C/L leaves only (other types opaque); the exact-resonance array raise is a recorded known finding.",
         technique="TLA+ spec (Impedance.tla) + TLC exhaustive BFS over builder states; spec->code replay of every circuit x frequency vector against the law's exact values",
     ),
+    "C02": dict(
+        text="PARTIAL. specs/Elements.tla owns the discrete parts of the property: the numeric and the symbolic dispatch of the general "
+             "transmission line model over all 243 open/short/finite configurations of its five sub-circuits (TLC checks the two "
+             "transcribed tables agree), the index bookkeeping that scatters 0 / infinite-frequency limits back into a frequency vector, "
+             "and the corner grid (lower corner, default, upper corner, off-default) of every registered element class. At every "
+             "enumerated point the harness compares get_impedances with the lambdified to_sympy(substitute=True) at 31 frequencies, "
+             "records which _eq method actually ran for each Tlm configuration, and checks reported limits against nearby finite "
+             "frequencies. The numeric equality is a differential comparison made by the harness - TLC cannot evaluate coth or "
+             "(j w)^n - so the level is the enumeration's, not a proof about the continuum.",
+        design_ref="§4 C02",
+        note="Corners and off-default points, not the continuum; non-finite values are skipped; whole-circuit symbolic-vs-numeric agreement is covered only through the Tlm container configurations.",
+        technique="TLA+ spec (Elements.tla) + TLC enumeration of dispatch configurations / corner vectors; spec->code replay with a differential numeric-vs-symbolic comparison in the harness",
+    ),
     "C03": dict(
         text="specs/CDC.tla models the scanner (character level), the shift/reduce parser with its shared stack, exact decimal "
              "arithmetic and the printer; specs/CDCRound.tla enumerates (generator tree, spelling options) pairs - connection shapes, "
